@@ -204,6 +204,9 @@ func (r ratioRec) add(k string, v float64) {
 	}
 }
 
+// findingUnionExcludesPoint: see the Union section of checkCapPair and known_findings.json.
+const findingUnionExcludesPoint = "cap-union-excludes-operand-point"
+
 func checkCapPair(c capPairCase) ev.Outcome {
 	o := ev.Outcome{Counts: map[string]int{}}
 	if !c.A.ok() || !c.B.ok() || len(c.P) > 4 {
@@ -224,8 +227,11 @@ func checkCapPair(c capPairCase) ev.Outcome {
 		o.Err, o.Finding, o.NonTrivial = pfx+fmt.Sprintf(f, args...), finding, true
 		return o
 	}
-	farProbes := 0
-	defer func() { o.Counts["addcap_far_rim_probes"] += farProbes }() // the map is shared with the returned copy
+	farProbes, unionProbes, unionShort := 0, 0, ""
+	defer func() { // the map is shared with the returned copy
+		o.Counts["addcap_far_rim_probes"] += farProbes
+		o.Counts["union_far_rim_probes"] += unionProbes
+	}()
 	rat := ratioRec{}
 	o.Ratios = rat
 
@@ -416,6 +422,36 @@ func checkCapPair(c capPairCase) ev.Outcome {
 				return fail("%s = {%v r2=%.17g} does not contain operand %d: short by %.6g chord length (δ=%.3g)", name, u.Center().Vector, ru, j, v, d)
 			}
 		}
+		// The strict reading, without δ: the point of each operand farthest from the
+		// union's centre, if the operand says it contains it, should be in the union.
+		// Union works in the angle domain with a computed centre and misses such points
+		// by up to ~1e-15 in chord length: known finding cap-union-excludes-operand-point
+		// (anything beyond 4e-15 has already failed the δ rule above). Recorded here,
+		// returned only after every other assertion of this case has been made.
+		if unionShort == "" && !u.IsFull() && !antipodalUnderflow {
+			for j, op := range []s2.Cap{a, b} {
+				oc, uc := op.Center(), u.Center()
+				if op.IsFull() || op.IsEmpty() || oc == uc || oc.Dot(uc.Vector) < -0.999999 {
+					continue
+				}
+				q := s2.InterpolateAtDistance(uc.Distance(oc)+op.Radius(), uc, oc)
+				for step := 0; step < 4 && !op.ContainsPoint(q); step++ {
+					q = s2.Point{Vector: q.Add(oc.Mul(float64(step+1) * 1e-16 * math.Max(1e-300, float64(op.Radius())))).Normalize()}
+				}
+				if !q.IsUnit() || !op.ContainsPoint(q) {
+					continue
+				}
+				unionProbes++
+				if !u.ContainsPoint(q) {
+					short := math.Sqrt(float64(s2.ChordAngleBetweenPoints(uc, q))) - math.Sqrt(ru)
+					if short <= 4e-15 {
+						unionShort = fmt.Sprintf("%s = {%v r2=%.17g} does not contain %v, which operand %d contains (ContainsPoint): short by %.3g chord length", name, uc.Vector, ru, q, j, short)
+					} else {
+						return fail("%s = {%v r2=%.17g} does not contain %v, which operand %d contains: short by %.6g chord length", name, uc.Vector, ru, q, j, short)
+					}
+				}
+			}
+		}
 		// minimality: radius ≤ max(θA, θB, (D+θA+θB)/2) + δ
 		ideal := hp.Max(hA.chord(), hB.chord())
 		s := hD.add(hA)
@@ -552,6 +588,9 @@ func checkCapPair(c capPairCase) ev.Outcome {
 				return fail("Contains (order %d) is true but probe %d of the contained cap is outside the container by %.6g chord length (δ=%.3g)", k, i, out, dd)
 			}
 		}
+	}
+	if unionShort != "" {
+		return failAs(findingUnionExcludesPoint, "%s", unionShort)
 	}
 	return o
 }
@@ -1060,7 +1099,7 @@ func checkChord(c chordCase) ev.Outcome {
 
 func init() {
 	ev.Define("cap_pair", ev.Options{
-		Rule:  "two caps: centres special (axes, negative zeros, poles, ±π meridian) / uniform / cell-derived / related (same, antipodal, 1e-300..1e-1 apart); squared-chord radii from {empty, 0, 4−0..3 ulps, 1e-300..1e-8, 45°/60°/90°/120°/135°/180° ±0..2 ulps, uniform, and the radii that make the caps touch from inside/outside (|θA−D|, θA+D, D, π−θA, … ±0..3 ulps)}; 0-3 probes on/near either boundary (±1e-14…1e-6 relative and absolute), centres, antipodes, random. Oracle: 320-bit half-angle algebra (square roots only) for D+θB ≤ θA, θA+θB ≥ D and the smallest enclosing cap; slack in chord length with δ = 2e-15 + 1e-14·scale. Contains/Intersects/InteriorIntersects right outside ±δ; Union contains both (≤ δ) and is minimal (≤ δ), empty operand neutral; AddCap keeps centre, only grows, Contains(other) afterwards, minimal, and - strictly, with no tolerance, because both sides are the library's own ContainsPoint - contains the point of the added cap farthest from the receiver's centre and up to 4 rim points next to it whenever the added cap contains them (count addcap_far_rim_probes); probes robustly inside an operand are in the Union; all results valid. Non-trivial = empty/full operand, some slack within 1e-9 of zero, or identical/antipodal centres.",
+		Rule:  "two caps: centres special (axes, negative zeros, poles, ±π meridian) / uniform / cell-derived / related (same, antipodal, 1e-300..1e-1 apart); squared-chord radii from {empty, 0, 4−0..3 ulps, 1e-300..1e-8, 45°/60°/90°/120°/135°/180° ±0..2 ulps, uniform, and the radii that make the caps touch from inside/outside (|θA−D|, θA+D, D, π−θA, … ±0..3 ulps)}; 0-3 probes on/near either boundary (±1e-14…1e-6 relative and absolute), centres, antipodes, random. Oracle: 320-bit half-angle algebra (square roots only) for D+θB ≤ θA, θA+θB ≥ D and the smallest enclosing cap; slack in chord length with δ = 2e-15 + 1e-14·scale. Contains/Intersects/InteriorIntersects right outside ±δ; Union contains both (≤ δ) and is minimal (≤ δ), empty operand neutral, and - strict reading, evaluated last in a case - contains each operand's point farthest from the union's centre when the operand contains it (it does not for ~12% of cases: known finding cap-union-excludes-operand-point, limited to 4e-15 chord length; count union_far_rim_probes); AddCap keeps centre, only grows, Contains(other) afterwards, minimal, and - strictly, with no tolerance, because both sides are the library's own ContainsPoint - contains the point of the added cap farthest from the receiver's centre and up to 4 rim points next to it whenever the added cap contains them (count addcap_far_rim_probes); probes robustly inside an operand are in the Union; all results valid. Non-trivial = empty/full operand, some slack within 1e-9 of zero, or identical/antipodal centres.",
 		Quick: 60000, Thorough: 4000000}, genCapPair, checkCapPair)
 	ev.Define("cap_point_ops", ev.Options{
 		Rule:  "one cap (as in cap_pair; radii also chosen so that the cap just touches / just covers a pole), 1-4 probes, an expansion distance ≥ 0, constructor arguments (angle, height, area incl. negative and beyond-full). ContainsPoint/InteriorContainsPoint right outside ±δ of the boundary (320-bit chord lengths), exact for empty/full; Complement: antipodal centre, r2 = 4−r2, exactly one of cap/complement contains a probe ≥3δ from the boundary; Expanded: same centre, radius chord length within δ of θ+dist, never shrinks, keeps contained probes; Radius(); AddPoint contains the point, minimal; RectBound valid, contains the centre and every probe ≥1e-13 inside; CapFromCenterAngle/Height/Area/Point, EmptyCap, FullCap. Non-trivial = empty/full/singleton cap or a cap touching/covering a pole.",
